@@ -520,6 +520,20 @@ func (fr *frame) applyContract(st *State, bc *BoundContract, args []Val, pos tok
 		u.store(st, c.Idx(sv.Base, sv.Len), et, xv)
 		u.writeCell(st, "bv64", lenCell, c.Add(sv.Len, c.BVu(1, 64)))
 	}
+	for _, mo := range bc.MapOps {
+		penv := u.newSpecEnv(bc, st, pre, args, nil)
+		cell := penv.mapCell(mo[0], mo[1])
+		it := types.NewInterfaceType(nil, nil)
+		fr.frameCheck(st, cell, it, pos)
+		var v Val = &IfaceV{Tag: c.BVu(0, 32), Ptr: c.NilA}
+		if len(mo) == 3 {
+			v = penv.eval(mo[2])
+			if _, ok := v.(*IfaceV); !ok {
+				v = u.makeIface(st, v, penv.typeOf(mo[2]))
+			}
+		}
+		u.store(st, cell, it, v)
+	}
 	for _, ap := range bc.AppendsAll {
 		penv := u.newSpecEnv(bc, st, pre, args, nil)
 		sv := penv.eval(ap[0]).(*SliceV)
